@@ -95,7 +95,7 @@ def idle_clock(tier, seed):
 
 def run(tier):
     return modeldiff.run("C16", tier, "gen:gen_group_cmd", RULE + "; plus a timed scenario for the idle clock (XPENDING idle after delivery and after XCLAIM, "
-                         "min-idle-time refusing young and freshly claimed entries)", check_every=10, hist_len=(30, 120), extra_fn=idle_clock,
+                         "min-idle-time refusing young and freshly claimed entries)", check_every=10, hist_len=(30, 120), extra_fn=idle_clock, script_prob=0.05,
                          assumptions=["reference model of consumer-group semantics (Redis command reference)",
                                       "delivery counters are not compared; claiming / re-reading deleted entries and "
                                       "XREADGROUP on a missing key are don't-cares and not generated"])
